@@ -197,8 +197,10 @@ func runC01(op string) string {
 					sb.WriteByte(',')
 				}
 				sb.WriteString(spanOrBad(data, on[j], o.Cbor()))
-				if encKind == "out" && len(ebad) < 1 && !encEq(o, o.Cbor()) {
-					ebad = append(ebad, fmt.Sprintf("tx%d.out%d", i, j))
+				if encKind == "out" && len(ebad) < 1 && !encEq(g10bAddressable(o), o.Cbor()) {
+					// the concrete Go type of THIS output decides (with GV.Gen.Preserve) whether
+					// the failure belongs to the recorded class reencode-out
+					ebad = append(ebad, fmt.Sprintf("tx%d.out%d:%s", i, j, g10bTypeName(o)))
 				}
 			}
 		}
@@ -658,4 +660,17 @@ func g10bRunReuse(f []string) string {
 		}
 	}
 	return fmt.Sprintf("dec=ok A:h=%s B:st=%s h=%s", okbad(ha), st, okbad(hb))
+}
+
+// g10bAddressable returns a pointer to (a copy of) v when v is not a pointer, so that
+// cbor.Encode finds pointer-receiver MarshalCBOR methods: re-serialisation then depends on
+// the type alone, not on how the value happens to be held.
+func g10bAddressable(v any) any {
+	rv := reflect.ValueOf(v)
+	if !rv.IsValid() || rv.Kind() == reflect.Pointer {
+		return v
+	}
+	p := reflect.New(rv.Type())
+	p.Elem().Set(rv)
+	return p.Interface()
 }
